@@ -23,6 +23,7 @@ type Flags struct {
 	Chan    bool // channel operations, select, go statements -> shim
 	Stmt    bool // scheduling point before every statement
 	Tick    bool // loop tick guard at the head of every for body
+	Ctx     bool // context.WithTimeout / context.WithDeadline -> deadlines on the virtual clock
 }
 
 func ParseFlags(s string) Flags {
@@ -43,6 +44,8 @@ func ParseFlags(s string) Flags {
 			f.Stmt = true
 		case "tick":
 			f.Tick = true
+		case "ctx":
+			f.Ctx = true
 		case "conc":
 			f.Sync, f.Chan = true, true
 		case "":
@@ -153,6 +156,15 @@ func (r *rw) expr(e ast.Expr) ast.Expr {
 		return nil
 	}
 	r.walk(e)
+	if r.f.Ctx {
+		if c, ok := e.(*ast.CallExpr); ok {
+			if se, ok := c.Fun.(*ast.SelectorExpr); ok {
+				if x, ok := se.X.(*ast.Ident); ok && x.Name == "context" && (se.Sel.Name == "WithTimeout" || se.Sel.Name == "WithDeadline") {
+					c.Fun = shim("Ctx" + se.Sel.Name)
+				}
+			}
+		}
+	}
 	if !r.f.Chan {
 		return e
 	}
